@@ -28,6 +28,7 @@ import (
 	"context"
 	"errors"
 	"fmt"
+	"runtime"
 	"sort"
 	"strconv"
 	"strings"
@@ -543,6 +544,15 @@ func (r *apiRun) noteLoad(k int) {
 	r.lref[k]++
 }
 
+// apiReap lets the goroutines of the caches that were just closed run to their exit. The workers run with
+// GOMAXPROCS=1 and the driver loop hardly ever blocks, so without this the closed stores pile up behind goroutines
+// that have not been scheduled yet (gigabytes per worker).
+func apiReap(base int) {
+	for i := 0; runtime.NumGoroutine() > base+4 && i < 10000; i++ {
+		runtime.Gosched()
+	}
+}
+
 func apiNotes(ns []apiNote) string {
 	var s []string
 	for _, n := range ns {
@@ -598,6 +608,7 @@ func TestVerif_API(t *testing.T) {
 		return
 	}
 	alpha := apiAlphabet()
+	base := runtime.NumGoroutine()
 	var caseNo int64
 	stop := false
 	var rec func(cfg apiCfg, ops []apiOp)
@@ -615,6 +626,7 @@ func TestVerif_API(t *testing.T) {
 					return
 				}
 				r := apiExec(res, prop, cfg, ops)
+				apiReap(base)
 				res.Outcome(r)
 				res.Executions++
 				res.Completed++
